@@ -31,7 +31,7 @@ pub fn def() -> CheckDef {
 const HORIZON: u64 = 120 * SEC;
 
 fn info(tier: Tier) -> CheckInfo {
-    CheckInfo {
+    let mut ci = CheckInfo {
         id: "C06",
         level: "model_checking",
         rule: format!(
@@ -42,7 +42,9 @@ fn info(tier: Tier) -> CheckInfo {
             HORIZON / SEC
         ),
         assumptions: vec!["default latency 10 ms; delayed datagrams arrive after 900 ms (> request timeout)".into()],
-    }
+    };
+    ci.rule.push_str(" Added: parts A and B are also run through the blocking Dht API (typed methods on helper threads); held iterators are drained on a helper thread (a stream that never ends is a violation, not a hang).");
+    ci
 }
 
 pub(crate) const N_APIS: usize = 13;
